@@ -97,6 +97,10 @@ paths:
                 note:
                   type: string
                   default: none
+                more:
+                  type: array
+                  items:
+                    type: string
           application/x-www-form-urlencoded:
             schema:
               type: object
@@ -211,6 +215,9 @@ components:
           anyOf:
             - type: string
             - type: integer
+        one:
+          allOf:
+            - $ref: '#/components/schemas/Error'
         both:
           allOf:
             - $ref: '#/components/schemas/Error'
